@@ -30,10 +30,14 @@ Init == /\ tid \in 1..Len(Traces) /\ l = 1 /\ now = 0
         /\ pend = [t \in 1..Traces[tid].nthreads |-> Idle]
         /\ verdict = Pre
 
+\* the search only needs counts and finished flags: speed samples and the clock are left out of the state so
+\* that commuting calls (advances of one task, calls on different tasks) lead to the same state - the search
+\* stays polynomial for 6-8 threads.  Negative speed / time remaining are judged directly on the snapshots (Pre).
+NoSamples(t) == IF t = Absent THEN t ELSE [t EXCEPT !.samples = <<>>]
 Effect(op) ==
-    CASE op.k = "advance" -> [tasks EXCEPT ![op.id] = Advance(@, op.a, now)]
-      [] op.k = "update"  -> [tasks EXCEPT ![op.id] = Update(@, op.total, op.completed, op.advance, now)]
-      [] op.k = "reset"   -> [tasks EXCEPT ![op.id] = Reset(@, TRUE, None, op.completed, now)]
+    CASE op.k = "advance" -> [tasks EXCEPT ![op.id] = NoSamples(Advance(@, op.a, now))]
+      [] op.k = "update"  -> [tasks EXCEPT ![op.id] = NoSamples(Update(@, op.total, op.completed, op.advance, now))]
+      [] op.k = "reset"   -> [tasks EXCEPT ![op.id] = NoSamples(Reset(@, TRUE, None, op.completed, now))]
       [] OTHER            -> tasks
 
 ReadOK(obs) == \A i \in Ids :
@@ -50,7 +54,7 @@ RetObs(t) == LET idx == CHOOSE i \in (pend[t].at + 1)..Len(Tr.events) : Tr.event
 Linearise(t) == /\ pend[t].active /\ ~pend[t].done
                 /\ IF pend[t].op.k = "read" THEN ReadOK(RetObs(t)) /\ UNCHANGED tasks
                    ELSE tasks' = Effect(pend[t].op)
-                /\ now' = now + 1
+                /\ UNCHANGED now
                 /\ pend' = [pend EXCEPT ![t].done = TRUE]
                 /\ UNCHANGED <<tid, l, verdict>>
 RetEv == /\ l <= Len(Tr.events) /\ Tr.events[l].e = "ret"
